@@ -663,7 +663,7 @@ impl Property for C03 {
         let dev = DevCfg { bbox, caps, disc };
         let dev_r = dev.r();
         // for the large device keep adapters around a smaller virtual region so that writes stay inside
-        let n_steps = if bigarea { 1 + src.draw(3) } else { 1 + src.draw(6) };
+        let n_steps = if bigarea { 1 + src.draw(3) } else { 1 + src.draw(if crate::prop::deep() { 12 } else { 6 }) };
         let virt0 = if bigarea {
             R::xywh(off[0] as i64, off[1] as i64, 300, 260)
         } else {
